@@ -185,7 +185,16 @@ class Delaunay:
 
     @property
     def simplices(self):
-        raise UnmodelledDependency("Delaunay.simplices on symbolic points")
+        """ghost: the triangulation's index sets are supplied by the contract (hints['delaunay_simplices']); the assumed
+        contract only says every simplex has d+1 vertices among the input points"""
+        sink = CTX.sink
+        h = sink.hints.get("delaunay_simplices") if sink is not None else None
+        if h is None:
+            raise UnmodelledDependency("Delaunay.simplices on symbolic points without a ghost hint")
+        h = _np.asarray(h, dtype=int)
+        if h.ndim != 2 or h.shape[1] != self.ndim + 1 or h.min() < 0 or h.max() >= self.npoints:
+            raise UnmodelledDependency("ghost simplices do not index the points")
+        return h
 
 
 _VOLUME_CACHE = {}
@@ -354,7 +363,61 @@ def _full(b, shape):
     return o
 NMF = _unmodelled("sklearn.decomposition.NMF")
 PCA = _unmodelled("sklearn.decomposition.PCA")
-Generator = _unmodelled("numpy.random.Generator")
+class Generator:
+    """A4: numpy.random.Generator -- draws are havoc values inside their documented support and a FUNCTION of
+    (seed, draw number): the same seed replays the same symbolic draws (determinism); distributions are not modelled"""
+
+    def __init__(self, seed):
+        self.seed = seed
+        self.n = 0
+        self.log = []
+
+    def _name(self, what):
+        self.n += 1
+        return f"rng[{self.seed}].{what}{self.n}"
+
+    def choice(self, a, size=None, replace=True, p=None, **kw):
+        _trust("numpy Generator.choice: indices within range (only entries with p > 0 when p is given); a function of the seed")
+        k = int(a) if not hasattr(a, "__len__") else len(a)
+        n = 1 if size is None else int(size)
+        nm = self._name("choice")
+        self.log.append(("choice", k, n, p))
+        out = _np.zeros(n, dtype=int)
+        for i in range(n):
+            # the drawn index is decided by free booleans (every index is explored)
+            for j in range(k - 1):
+                if CTX.decide(z3.Bool(f"{nm}[{i}]=={j}")):
+                    out[i] = j
+                    break
+            else:
+                out[i] = k - 1
+            if p is not None:
+                pj = SymReal.lift(_base(to_symarray(p))[out[i]])
+                CTX.add((pj > 0).z, "axiom")
+        if not replace and len(set(out.tolist())) != n:
+            from .sym import PathAbort
+
+            raise PathAbort("choice without replacement: repeated index")
+        return out if size is not None else int(out[0])
+
+    def standard_normal(self, size=None, **kw):
+        _trust("numpy Generator.standard_normal: arbitrary reals; a function of the seed")
+        from .sym import sym_array
+
+        self.log.append(("standard_normal", size))
+        return sym_array(self._name("normal"), tuple(size) if hasattr(size, "__len__") else (int(size),))
+
+    def random(self, size=None, **kw):
+        from .sym import sym_array
+
+        shape = tuple(size) if hasattr(size, "__len__") else (int(size),)
+        a = sym_array(self._name("uniform"), shape)
+        for e in _base(a).ravel().tolist():
+            CTX.add(z3.And(e.z >= 0, e.z < 1), "axiom")
+        return a
+
+
+_RNGS = {}
 
 
 class QPFact:
@@ -415,8 +478,11 @@ def solve_qp(G, a, C=None, b=None, meq=0, factorized=False):
     return (x.view(SymArray), fact.objective(list(x)), x.view(SymArray), _np.array([1, 0]), None, None)
 
 
-def default_rng(*a, **k):
-    raise UnmodelledDependency("numpy.random.default_rng")
+def default_rng(seed=None):
+    _trust("numpy.random.default_rng(seed): a generator whose draws are a function of the seed")
+    if isinstance(seed, Generator):
+        return seed
+    return Generator(seed)
 
 
 class _NS:
@@ -427,6 +493,76 @@ class _NS:
         raise UnmodelledDependency(f"{self._name}.{n}")
 
 
-dirichlet = _NS("scipy.stats.dirichlet")
-qmc = _NS("scipy.stats.qmc")
+class _Dirichlet:
+    def rvs(self, alpha, size=1, random_state=None):
+        _trust("scipy.stats.dirichlet.rvs: rows >= 0 summing to 1 (Dirichlet(1,..,1) is the uniform law on the simplex: cited); a function of the generator state")
+        from .sym import sym_array
+
+        rng = random_state if isinstance(random_state, Generator) else Generator(random_state)
+        k, n = len(alpha), int(size)
+        a = sym_array(rng._name("dirichlet"), (n, k))
+        rng.log.append(("dirichlet", [float(a_) for a_ in alpha], n, a))
+        for r in range(n):
+            row = _base(a)[r]
+            CTX.add(z3.And(*[e.z >= 0 for e in row.tolist()], _sumlist(row.tolist()).z == 1), "axiom")
+        return a
+
+
+dirichlet = _Dirichlet()
+
+
+class _QMCEngine:
+    def __init__(self, d, seed=None, **kw):
+        self.d = int(d)
+        self.rng = seed if isinstance(seed, Generator) else Generator(seed)
+
+    def random(self, n=1, **kw):
+        _trust("scipy.stats.qmc engines: points in [0,1)^d (assumed with positive coordinate sum); a function of the seed")
+        from .sym import sym_array
+
+        n = int(n)
+        a = sym_array(self.rng._name(type(self).__name__), (n, self.d))
+        self.rng.log.append(("qmc", type(self).__name__, n, a))
+        for r in range(n):
+            row = _base(a)[r].tolist()
+            CTX.add(z3.And(*[z3.And(e.z >= 0, e.z < 1) for e in row], _sumlist(row).z > 0), "axiom")
+        return a
+
+
+class _QMC:
+    QMCEngine = _QMCEngine
+
+    class Sobol(_QMCEngine):
+        pass
+
+    class Halton(_QMCEngine):
+        pass
+
+    class LatinHypercube(_QMCEngine):
+        pass
+
+    class MultinomialQMC:
+        def __init__(self, pvals, n_trials, engine=None, seed=None, **kw):
+            _trust("scipy.stats.qmc.MultinomialQMC: non-negative integer counts summing to n_trials (zero where pvals is zero)")
+            self.pvals = _base(to_symarray(pvals))
+            self.n = int(n_trials)
+            self.rng = seed if isinstance(seed, Generator) else Generator(seed)
+            self.rng.log.append(("multinomial", self.pvals, self.n))
+
+        def random(self, n=1):
+            k = self.pvals.shape[0]
+            nm = self.rng._name("multinomial")
+            # counts: a composition of n into k parts, decided by free booleans (all compositions explored)
+            counts, left = [], self.n
+            for j in range(k - 1):
+                c = 0
+                while c < left and CTX.decide(z3.Bool(f"{nm}.count[{j}]>{c}")):
+                    c += 1
+                counts.append(c)
+                left -= c
+            counts.append(left)
+            return _np.array([counts], dtype=float)
+
+
+qmc = _QMC()
 stats = _NS("scipy.stats")
